@@ -307,6 +307,39 @@ fn check_c13(text: &str, model: &MField, subst: bool, through_control: bool) -> 
     if again2 != o {
         out.push(viol("idempotent", ctx(&format!("normalising the re-read output gives {:?}", again2))));
     }
+    // trees of other provenance must normalise to the same text; the entry- and relation-level entry points agree
+    if out.is_empty() && model.substvars.is_empty() && ll::Relations::from_str(text).is_ok() {
+        let r = ll::Relations::from_str(text).unwrap();
+        for (how, v) in crate::props::c12::ll_variants(text) {
+            let got = v.wrap_and_sort().to_string();
+            // (rebuilding through Relation::new keeps name and version only: compare only when nothing else was written)
+            let lossy_rebuild = how == "rebuilt with Relation::new" && model.entries.iter().flatten().any(|r| r.archqual.is_some() || r.archs.is_some() || !r.profiles.is_empty());
+            if got != o && !lossy_rebuild {
+                out.push(viol("provenance", ctx(&format!("the field {} normalises to {:?}", how, got))));
+            }
+        }
+        let with_empty = ll::Relations::from(std::iter::once(ll::Entry::new()).chain(r.entries()).collect::<Vec<_>>());
+        let got = with_empty.wrap_and_sort().to_string();
+        if got != o {
+            out.push(viol("no-empty-entries", ctx(&format!("with an empty constructed entry in front the field normalises to {:?}", got))));
+        }
+        let items: Vec<&str> = if o.is_empty() { vec![] } else { o.split(", ").collect() };
+        for e in r.entries() {
+            if e.relations().next().is_none() {
+                continue;
+            }
+            let we = e.wrap_and_sort().to_string();
+            if !items.contains(&we.as_str()) {
+                out.push(viol("entry-entry-point", ctx(&format!("Entry::wrap_and_sort on {:?} gives {:?}, which is not one of the field's normalised entries", e.to_string(), we))));
+            }
+            for rel in e.relations() {
+                let wr = rel.wrap_and_sort().to_string();
+                if wr != canon_rel(&read_ll_rel(&rel)) {
+                    out.push(viol("relation-entry-point", ctx(&format!("Relation::wrap_and_sort on {:?} gives {:?}", rel.to_string(), wr))));
+                }
+            }
+        }
+    }
     if through_control && out.is_empty() {
         // control files always allow substitution variables
         let expected = ll::Relations::parse_relaxed(text, true).0.wrap_and_sort().to_string();
